@@ -104,6 +104,10 @@ def gen_values(rng, key, n):
     if short == "full_well_capacity":
         return rng.sample([100.0, 2000.0, 5e4, 1e6, 3.5e6], n), None
     if short == "a":
+        if rng.random() < 0.25:
+            # an expression that yields many more values than its text has characters
+            big = rng.randint(18, 40)
+            return [int(x) for x in np.arange(big)], f"numpy.arange({big})"
         if rng.random() < 0.4:
             a0, step = rng.randint(1, 9), rng.randint(1, 3)
             expr = f"numpy.arange({a0}, {a0 + n * step}, {step})"
@@ -135,13 +139,15 @@ def gen_space(rng):
         params[0]["enabled"] = True
     if mode == "product":  # keep the Cartesian product below ~48 runs
         while np.prod([len(p["values"]) for p in params if p["enabled"]]) > 48:
-            big = max((p for p in params if p["enabled"]), key=lambda p: len(p["values"]))
+            lit = [p for p in params if p["enabled"] and p["expr"] is None and len(p["values"]) > 1]
+            big = max(lit or [p for p in params if p["enabled"]], key=lambda p: len(p["values"]))
             big["values"] = big["values"][:-1]
             big["expr"] = None
     if mode == "custom":
         nrows = rng.randint(1, 5)
         for p in params:
             vals, _ = gen_values(rng, p["key"], min(nrows, 4))
+            vals = vals[:nrows]
             while len(vals) < nrows:
                 vals.append(vals[-1] if not isinstance(vals[-1], list) else list(vals[-1]))
             p["values"], p["expr"] = vals, None
